@@ -122,6 +122,23 @@ func gcScenariosC04(c *Ctx) []gcScenario {
 				Gate: &gcGate{Point: pt, ID: "s:s2", Event: "publish:t1"}})
 		}
 	}
+	// the FIRST subscription of a topic arrives while a Publish that found nobody is inside its critical section; later publishes must reach it
+	for _, per := range []bool{false, true} {
+		for _, pt := range []string{"gochannel.publish.after_closed_check", "gochannel.publish.rlocked", "gochannel.publish.locked", "gochannel.publish.sent", "gochannel.publish.unlock"} {
+			scs = append(scs, gcScenario{Class: "overlap-first-subscriber/" + pt, Persistent: per, Buffer: 1,
+				Pubs: []gcPub{{Name: "p1", Topic: "t1", N: 3}},
+				Gate: &gcGate{Point: pt, ID: "m:1", Event: "subscribe:t1"}})
+		}
+	}
+	// a late subscription that stalls on the second message of the replayed backlog: the first delivery's context ends with its Ack all the same
+	for _, buf := range []int{0, 2} {
+		scs = append(scs, gcScenario{Class: "replay-stall", Persistent: true, Buffer: buf,
+			Subs: []gcSub{{Name: "s1", Topic: "t1", Behav: "stall2", Phase: 2}},
+			Pubs: []gcPub{{Name: "p1", Topic: "t1", N: 3}}})
+		scs = append(scs, gcScenario{Class: "live-stall", Persistent: buf == 0, Buffer: buf,
+			Subs: []gcSub{{Name: "s1", Topic: "t1", Behav: "stall2"}},
+			Pubs: []gcPub{{Name: "p1", Topic: "t1", N: 3}}})
+	}
 	// a Subscribe that lands between two messages of one multi-message Publish
 	for _, blk := range []bool{false, true} {
 		for _, pt := range []string{"gochannel.publish.rlocked", "gochannel.publish.locked", "gochannel.publish.persisted", "gochannel.publish.sent"} {
@@ -281,6 +298,12 @@ func gcScenariosC07(c *Ctx) []gcScenario {
 					Pubs: []gcPub{{Name: "p1", Topic: "t1", N: 3}, {Name: "p2", Topic: "t1", N: 2}}, CloseAt: 1, Closers: 2})
 			}
 		}
+	}
+	// Close while a late subscription is replaying a long persisted backlog
+	for i := 0; i < c.Pick(8, 120); i++ {
+		scs = append(scs, gcScenario{Class: "close-during-replay", Persistent: true, Buffer: i % 2, CloseAt: 3, Closers: 1,
+			Subs: []gcSub{{Name: "s1", Topic: "t1", Behav: "ack", Phase: 2, Decorators: i % 2}, {Name: "s2", Topic: "t1", Behav: "ack", Phase: 2}},
+			Pubs: []gcPub{{Name: "p1", Topic: "t1", N: 600 + 100*(i%5)}}})
 	}
 	n := c.Pick(60, 2000)
 	for i := 0; i < n; i++ {
